@@ -443,6 +443,24 @@ pub fn run(tier: Tier) -> Report {
             wc.push(Case { init: Init::Spec(first.clone()), ops: vec![Op::Compose(GSpec::User(g), false), Op::Elim] });
         }
     }
+    // right operands over arenas re-rooted with add_root (root not at node 0, a former tree with a shifted terminal
+    // left behind): every initial tree with <= 3 nodes and every from_aff / from_poly root x every user tree, pruned
+    // composition and un-pruned composition followed by infeasible_elimination
+    {
+        let mut n = 0u64;
+        for init in is.iter().filter(|i| match i { Init::Spec(t) => t.n_nodes() <= 3, Init::FromAff(_) | Init::FromPoly(..) => true, _ => false }) {
+            let d = init.out_dim();
+            if d == 0 || d > 2 {
+                continue;
+            }
+            for g in user_trees(d) {
+                wc.push(Case { init: init.clone(), ops: vec![Op::Compose(GSpec::Rerooted(g.clone()), true)] });
+                wc.push(Case { init: init.clone(), ops: vec![Op::Compose(GSpec::Rerooted(g), false), Op::Elim] });
+                n += 2;
+            }
+        }
+        rep.set("rerooted_operand_histories", n);
+    }
     // regions millions / billions of units from the origin
     wc.extend(super::c11::far_programs(1e6));
     wc.extend(super::c11::far_programs(1e9));
